@@ -85,14 +85,17 @@ def render(stmts, secret, ind, out, counter):
                     render(els, False, ind + 1, out, counter); out.append(f"{pad}    pass")
         elif t == "range":    # r = _range(bound, max=M): one range object, iterated by the loops that name it
             if secret:
-                out.append(f"{pad}{s[1]} = _range({expr_src(s[2], True)}, max={s[3]}, ctx=_)")
+                csm = ", checkstopmax=True" if len(s) > 4 and s[4] and s[4].get("checkstopmax") else ""
+                out.append(f"{pad}{s[1]} = _range({expr_src(s[2], True)}, max={s[3]}{csm}, ctx=_)")
             else:
                 out.append(f"{pad}{s[1]} = range({expr_src(s[2], False)})")
         elif t == "for":
             lv, bound, mx, body = s[1], s[2], s[3], s[4]
             shared = s[5] if len(s) > 5 else None
+            # optional 7th element: options of the loop's own `_range` ({"checkstopmax": true}: the stop-exceeds-max assertion)
+            csm = ", checkstopmax=True" if len(s) > 6 and s[6] and s[6].get("checkstopmax") else ""
             if secret:
-                out.append(f"{pad}for {lv} in {shared}:" if shared else f"{pad}for {lv} in _range({expr_src(bound, True)}, max={mx}, ctx=_):")
+                out.append(f"{pad}for {lv} in {shared}:" if shared else f"{pad}for {lv} in _range({expr_src(bound, True)}, max={mx}{csm}, ctx=_):")
                 render(body, True, ind + 1, out, counter); out.append(f"{pad}    pass")
                 out.append(f"{pad}_endfor(ctx=_)")
             else:
